@@ -296,6 +296,127 @@ pub fn check(sc: &Scene, obs: &mut Obs) -> Check {
     Ok(())
 }
 
+// ------------------------------------------------------------------ rasteriser output into every Target implementation
+
+/// Screen-space triangles (C04's class mixture: slivers, near-flat halves, sub-pixel, coincident...) are scan-converted by
+/// tri_fill and each scanline handed straight to the three Target implementations a user can render into. Thin slivers
+/// make the independently stepped left and right edges cross by an ulp, so the rasteriser emits spans whose end lies
+/// before their start; every target must treat them as empty (target.rs: x1 = max(x0, end)), not index with them.
+/// Oracle: no panic; the colour-only target and the Framebuf (depth test passing everywhere) paint the same pixels;
+/// Throughput.i equals the span length.
+pub fn check_spans(c: &crate::c04::TriCase, obs: &mut Obs) -> Check {
+    use re::geom::vertex;
+    use re::math::color::rgba;
+    use re::render::raster::{tri_fill, Frag};
+    use re::render::{Context, Framebuf, Target};
+    use re::util::buf::{AsMutSlice2, Buf2};
+    let v = c.pts();
+    let maxx = v.iter().map(|p| p[0]).fold(0.0f32, f32::max);
+    let maxy = v.iter().map(|p| p[1]).fold(0.0f32, f32::max);
+    if maxx > 600.0 || maxy > 600.0 {
+        // (a 4096 x 4096 buffer per case and target costs more than it tells)
+        obs.class("skipped: triangle beyond 600 px");
+        return Ok(());
+    }
+    ensure!( v.iter().flatten().all(|c| c.is_finite() && *c > -0.5), "bad-case", "generator produced an out-of-domain triangle {v:?}");
+    // tri_fill knows nothing about the buffer: give it one that holds every pixel centre the triangle can cover
+    let (w, h) = (maxx.ceil() as u32 + 2, maxy.ceil() as u32 + 2);
+    // (the depth test compares reciprocals; it is switched off so that both kinds of target accept every fragment)
+    let ctx = Context { depth_test: None, ..Context::default() };
+    let fs = |_: Frag<()>| Some(rgba(0x11, 0x22, 0x33, 0x44));
+    let verts = v.map(|p| vertex(pt3(p[0], p[1], 0.5), ()));
+    let mut reversed = 0u32;
+    let mut spans = 0u64;
+    let mut run = |which: u8| -> Result<(Vec<u32>, u64), String> {
+        catch(|| {
+            let mut col = Buf2::<u32>::new((w + 1, h + 1));
+            let mut dep = Buf2::<f32>::new_with((w + 1, h + 1), |_, _| f32::INFINITY);
+            let mut total = 0u64;
+            {
+                let mut feed = |t: &mut dyn FnMut(re::render::raster::Scanline<()>) -> re::render::stats::Throughput| {
+                    tri_fill(verts, |sl| {
+                        let len = sl.xs.end.saturating_sub(sl.xs.start);
+                        if which == 0 {
+                            spans += 1;
+                            if sl.xs.end < sl.xs.start {
+                                reversed += 1;
+                            }
+                        }
+                        let io = t(sl);
+                        if io.i != len {
+                            panic!("Throughput.i = {} for a span of length {len}", io.i);
+                        }
+                        total += io.o as u64;
+                    });
+                };
+                match which {
+                    0 => feed(&mut |sl| col.rasterize(sl, &fs, &ctx)),
+                    1 => {
+                        let mut whole = col.as_mut_slice2();
+                        let mut win = whole.slice_mut((0..w, 0..h));
+                        feed(&mut |sl| win.rasterize(sl, &fs, &ctx))
+                    }
+                    _ => {
+                        let mut fb = Framebuf { color_buf: &mut col, depth_buf: &mut dep };
+                        feed(&mut |sl| fb.rasterize(sl, &fs, &ctx))
+                    }
+                }
+            }
+            (col.data().to_vec(), total)
+        })
+    };
+    let names = ["Buf2<u32>", "MutSlice2<u32>", "Framebuf"];
+    let mut outs = vec![];
+    for k in 0..3u8 {
+        match run(k) {
+            Ok(o) => outs.push(o),
+            Err(p) => fail!("render-panic", "Target::rasterize on {} panicked on a scanline emitted by tri_fill: {p}", names[k as usize]),
+        }
+    }
+    for k in 1..3 {
+        if outs[k] != outs[0] {
+            let at = outs[0].0.iter().zip(&outs[k].0).position(|(a, b)| a != b);
+            fail!("targets-disagree", "{} and {} painted different pixels for the same scanlines (first difference at linear index {at:?} of a {}-wide buffer; fragments written {} vs {})", names[0], names[k], w + 1, outs[0].1, outs[k].1);
+        }
+    }
+    // nothing in the guard column / row
+    let stride = (w + 1) as usize;
+    for (i, &px) in outs[0].0.iter().enumerate() {
+        if px != 0 && (i % stride >= w as usize || i / stride >= h as usize) {
+            fail!("writes-outside", "pixel ({}, {}) beyond the triangle's bounding box was written", i % stride, i / stride);
+        }
+    }
+    obs.class(crate::c04::shape_class(&c.shape));
+    obs.class(if reversed > 0 { "tri_fill emitted a reversed span (end < start)" } else { "no reversed span" });
+    if outs[0].1 > 0 && spans > 0 {
+        obs.nontrivial(hash_of(&c.v));
+    }
+    if obs.wants_sample() && reversed > 0 {
+        let cc = c.clone();
+        obs.sample(|| json!({"case": cc, "reversed_spans": reversed, "fragments": outs[0].1}));
+    }
+    Ok(())
+}
+
+/// Thin, steep slivers whose sharp tip sits on (or a few ulps off) a pixel centre: the two long edges nearly coincide, so
+/// their independently stepped positions cross near the tip, and on the tip's own row they straddle the centre.
+pub fn steep_sliver() -> BoxedStrategy<crate::c04::TriCase> {
+    (6i32..60, 0i32..24, -3i32..=3, 0i32..=4, -0.4f32..0.4, 4.0f32..30.0, 0.3f32..0.95, 1i32..=8, any::<bool>(), any::<bool>(), any::<u8>())
+        .prop_map(|(kx, ky, ix, iy, slope, len, t, k, neg, top, p)| {
+            // tip: bottom tips a hair below a row of centres (so that row is still scanned), top tips a hair above
+            let (ty, dir) = if top { (nudge(ky as f32 + 0.5, -iy), 1.0f32) } else { (nudge(ky as f32 + 30.5, iy), -1.0f32) };
+            let c = [nudge(kx as f32 + 0.5, ix), ty];
+            let a = [c[0] + slope * len, c[1] + dir * len];
+            let off = if k == 8 { 0.0 } else { 10f32.powi(-k) * if neg { -1.0 } else { 1.0 } };
+            let b = [c[0] + slope * len * t + off, c[1] + dir * len * t];
+            const P: [[usize; 3]; 6] = [[0, 1, 2], [0, 2, 1], [1, 0, 2], [1, 2, 0], [2, 0, 1], [2, 1, 0]];
+            let q = P[(p % 6) as usize];
+            let v = [a, b, c].map(|p| [p[0].max(0.0), p[1].max(0.0)]);
+            crate::c04::TriCase { shape: "sliver".into(), v: [v[q[0]], v[q[1]], v[q[2]]].map(|p| [X(p[0]), X(p[1])]) }
+        })
+        .boxed()
+}
+
 pub fn run(cx: &mut Ctx) {
     cx.assume("numeric domain of the property: far/near <= 1000, |view coordinate| <= 1000 x near, focal ratio 0.1..10, near 1e-2..1e2");
     let n = cx.n(500_000, 10_000_000);
@@ -305,11 +426,19 @@ pub fn run(cx: &mut Ctx) {
     cx.prop_check("pixel-grid", n, move || grid_scene(4), |c, obs| check(c, obs));
     let n = cx.n(20_000, 400_000);
     cx.prop_check("many-near-coplanar", n, coplanar_scene, |c, obs| check(c, obs));
+    let n = cx.n(100_000, 3_000_000);
+    cx.prop_check("spans-direct", n, crate::c04::tri_case, |c, obs| check_spans(c, obs));
+    let n = cx.n(150_000, 4_000_000);
+    cx.prop_check("spans-direct-steep-slivers", n, steep_sliver, |c, obs| check_spans(c, obs));
 }
 
-pub fn replay(_sub: &str, case: &Value) -> Check {
+pub fn replay(sub: &str, case: &Value) -> Check {
     let mut obs = Obs::new();
     obs.freeze();
+    if sub.starts_with("spans-direct") {
+        let c: crate::c04::TriCase = serde_json::from_value(case.clone()).map_err(|e| Fail::new("bad-replay", e.to_string()))?;
+        return check_spans(&c, &mut obs);
+    }
     let sc: Scene = serde_json::from_value(case.clone()).map_err(|e| Fail::new("bad-replay", e.to_string()))?;
     check(&sc, &mut obs)
 }
